@@ -747,7 +747,7 @@ class WorldChainEngine(EngineBase):
     def rule_text(self):
         return ('each evaluation is a seeded chain of 2-10 builder calls over a growing pool of worlds: build_world of a shipped '
                 'non-BurnMan world or of a generated 1-6 layer configuration, build_from_world (empty / same name / new name / flags / '
-                'slices / tides; new_name none, parent\'s name, config name or fresh) and scale_from_world (factor 0.1..10) with parents '
+                'slices / tides / one-key geometry, density, mass and None overrides; new_name none, parent\'s name, config name or fresh) and scale_from_world (factor 0.1..10) with parents '
                 'drawn from the whole pool. After every call: geometry/mass invariants of the new world, scaling relations, distinct '
                 'name, every earlier world and input dict equals its deep snapshot, and the call returned within 10^6 builder line '
                 'events. distinct = distinct operation list; non-trivial = at least one derivation or scaling.')
